@@ -177,7 +177,7 @@ def lib_objects(cfg="S", extra=(), cxx="g++"):
     objs = [os.path.join(odir, os.path.basename(s)[:-2] + ".o") for s in srcs]
     if os.path.exists(stamp):
         return objs
-    prune(os.path.join(CACHE, "obj"), keep=6)
+    prune(os.path.join(CACHE, "obj"), keep=16)
     os.makedirs(odir, exist_ok=True)
     jobs = [(cxx, flags, s, o) for s, o in zip(srcs, objs)]
     with cf.ThreadPoolExecutor(NCPU) as ex:
